@@ -6,6 +6,11 @@ use std::{
     sync::atomic::{AtomicBool, Ordering::Relaxed},
 };
 
+/// Deepest iteration of the iterative deepening driver. Killer moves are stored per ply, and
+/// the game's state stack (512 plies) must hold the game so far (at most 400 plies), the
+/// search line and the capture-only extension.
+pub const MAX_SEARCH_DEPTH: u8 = 64;
+
 pub type TranspositionTable = HashMap<u64, TableEntry, BuildNoHashHasher<u64>>;
 
 #[derive(Clone, Copy, PartialEq, Eq, Debug)]
@@ -339,7 +344,7 @@ pub fn get_best_move_entry(
         return Some((moves.first().copied(), 0, true));
     }
 
-    let mut killer_moves = [None; 32];
+    let mut killer_moves = [None; MAX_SEARCH_DEPTH as usize];
     let mut best_move = None;
     let mut best_score = Score::MIN + 1;
 
@@ -472,7 +477,7 @@ pub fn get_best_move_until_stop(
     // A deeper cached result must not carry the search past the requested depth
     let starting_depth = max_depth.map_or(starting_depth, |max_depth| starting_depth.min(max_depth).max(1));
 
-    for depth in starting_depth.. {
+    for depth in starting_depth.min(MAX_SEARCH_DEPTH)..=MAX_SEARCH_DEPTH {
         #[cfg(daniel729_chess_verif)]
         crate::verif_hooks::iteration(depth);
         let Some((best_move, best_score, is_only_move)) =
@@ -515,5 +520,5 @@ pub fn get_best_move_until_stop(
         }
     }
 
-    unreachable!()
+    found_move
 }
